@@ -7,6 +7,7 @@ import TssVerif.Core.Ckd
 import TssVerif.Core.Primes
 import TssVerif.Core.Blame
 import TssVerif.Core.BlameEc
+import TssVerif.Core.BlameRs
 /-! Line-protocol ops for signing arithmetic. -/
 namespace TssVerif.OpsSign
 open TssVerif Wire OpsCrypto Sign
@@ -135,6 +136,21 @@ def run (op : String) (args : List String) : Option String :=
       some ((BlameEc.round3 Secp256k1.curve Sha512.sha512_256 Zk.cur ⟨true⟩ (noMod == "1") (noFac == "1") t ownId ssid
         ownNt ownH1 ownH2 peers).render fun cs => "culprits=" ++ rList toString cs)
     | _, _, _, _, _, _, _ => none
+  | "rs_new_member", [every, t, ownId, ownIdx, msgs] =>
+    -- msgs: `idx/pubX/pubY/commitment/de-commitment/share` per old member, separated by `;`
+    let pMsg (s : String) : Option BlameRs.OldMsg :=
+      match s.splitOn "/" with
+      | [idx, px, py, c, d, sh] =>
+        match pDec idx, pNat px, pNat py, pNat c, pList pNat d, pNat sh with
+        | some idx, some px, some py, some c, some d, some sh => some ⟨idx, (px, py), c, d, sh⟩
+        | _, _, _, _, _, _ => none
+      | _ => none
+    match pDec t, pNat ownId, pDec ownIdx, (msgs.splitOn ";").mapM pMsg with
+    | some t, some ownId, some ownIdx, some msgs =>
+      some ((BlameRs.newMember Ed25519.curve Sha512.sha512_256 (every == "1") ⟨true⟩ 8 Ed25519.eightInv t ownId ownIdx msgs).render fun
+        | .pass ack => "pass xi=" ++ rNat ack.xi
+        | .fail why cs => "fail culprits=" ++ rList toString cs ++ " " ++ why.replace " " "-")
+    | _, _, _, _ => none
   | "engine2_trace", [proto, role, nOld, nNew, self, evs] =>
     match Engine2.findProto proto, pDec nOld, pDec nNew, pDec self with
     | some p, some nOld, some nNew, some self =>
